@@ -252,7 +252,7 @@ fn gen_modulus(rng: &mut Rng, bits: u32, have: &[u64]) -> Option<(u64, &'static 
 fn a_boundary_values(rng: &mut Rng, qs: &[u64], big_q: &BigU) -> Vec<(BigU, &'static str)> {
     let mut out: Vec<(BigU, &'static str)> = vec![];
     let one = BigU::one();
-    let mut push = |v: BigU, c: &'static str, out: &mut Vec<(BigU, &'static str)>| { if v.cmp_u(big_q) == Ordering::Less { out.push((v, c)); } };
+    let push = |v: BigU, c: &'static str, out: &mut Vec<(BigU, &'static str)>| { if v.cmp_u(big_q) == Ordering::Less { out.push((v, c)); } };
     push(BigU::zero(), "0", &mut out);
     push(one.clone(), "1", &mut out);
     push(big_q.sub(&one), "Q-1", &mut out);
@@ -289,7 +289,7 @@ fn a_big_case(cx: &Cx, rng: &mut Rng, rep: &mut Report) {
         let bits = match profile { 0 => rng.range(2, 61), 1 => rng.range(50, 61), 2 => 61, 3 => rng.range(2, 20), _ => *rng.pick(&[2u64, 3, 31, 32, 33, 59, 60, 61]) } as u32;
         let mut got = gen_modulus(rng, bits, &qs);
         let mut tries = 0;
-        while got.is_none() && tries < 50 { got = gen_modulus(rng, rng.range(2, 61) as u32, &qs); tries += 1; }
+        while got.is_none() && tries < 50 { let b2 = rng.range(2, 61) as u32; got = gen_modulus(rng, b2, &qs); tries += 1; }
         let Some((v, kind)) = got else { break };
         qs.push(v); kinds.push(kind);
     }
@@ -382,4 +382,772 @@ fn a_big_case(cx: &Cx, rng: &mut Rng, rep: &mut Report) {
     }
 }
 
-include!("c10_b.inc");
+// ================================================================== Workload B
+struct Tool {
+    n: usize, logn: usize, k: usize, kb: usize,
+    qs: Vec<u64>, t: u64,
+    bsk: Vec<u64>,            // B then m_sk
+    msk: u64, gamma: u64,
+    big_q: BigU, big_b: BigU, big_bsk: BigU,
+    q_mod_bsk_mt: Vec<u64>,   // Q mod (Bsk, m_tilde)
+    qinv_mt: u64,             // Q^-1 mod 2^32
+    tool: RNSTool,
+    tables: Option<Vec<NTTTables>>, psis: Vec<u64>,
+    ntt_class: bool,
+    desc: Value,
+}
+impl Tool {
+    fn kc(&self) -> &'static str { kcls(self.k) }
+    fn info(&self, extra: Value) -> Value { json!({"tool": self.desc, "input": extra}) }
+}
+
+/// the 61-bit primes = 1 mod 2N, from the top, as RNSTool::new documents them
+fn aux_primes(n: usize, count: usize) -> Vec<u64> {
+    let f = 2 * n as u64;
+    let mut v = ((1u64 << 61) - 1) / f * f + 1;
+    let mut out = vec![];
+    while out.len() < count { if refm::is_prime(v) { out.push(v); } v -= f; }
+    out
+}
+
+fn ntt_prime(rng: &mut Rng, n: usize, bits: u32, avoid: &[u64]) -> Option<u64> {
+    let m = 2 * n as u64;
+    let lo = 1u64 << (bits - 1); let hi = (1u64 << bits) - 1;
+    let first = (lo + m - 2) / m * m + 1;
+    if first > hi { return None; }
+    let cnt = (hi - first) / m + 1;
+    let start = rng.below(cnt);
+    for off in 0..cnt.min(5000) {
+        let c = first + ((start + off) % cnt) * m;
+        if refm::is_prime(c) && !avoid.contains(&c) { return Some(c); }
+    }
+    None
+}
+
+fn gen_tool_params(rng: &mut Rng) -> Option<(usize, Vec<u64>, u64, bool, &'static str, &'static str)> {
+    let logn = rng.range(1, 6) as usize;
+    let n = 1usize << logn;
+    let k = match rng.below(10) { 0 => 1, 1 => 2, 2 => 8, _ => rng.range(1, 8) } as usize;
+    let ntt_class = !rng.chance(1, 4);
+    let minb = if ntt_class { (logn + 2) as u64 } else { 2 };
+    let profile = rng.below(6);
+    let pname = ["small", "large", "max60", "mixed", "seal_like", "tiny"][profile as usize];
+    let mut qs: Vec<u64> = vec![];
+    for i in 0..k {
+        let bits = match profile {
+            0 => rng.range(minb, (minb + 8).min(60)),
+            1 => rng.range(50, 60),
+            2 => 60,
+            3 => rng.range(minb, 60),
+            4 => if i == 0 || i == k - 1 { 60 } else { rng.range(30, 50) },
+            _ => rng.range(minb, (minb + 3).min(60)),
+        } as u32;
+        let mut got = None;
+        for attempt in 0..60 {
+            let b = if attempt < 3 { bits } else { rng.range(minb, 60) as u32 };
+            if ntt_class { got = ntt_prime(rng, n, b, &qs); }
+            else {
+                // any odd modulus (m_tilde = 2^32 must be invertible), primes and composites
+                let top = 1u64 << (b - 1);
+                let v = (rng.bits(b) | top | 1).max(3);
+                if refm::bit_len(v) as u32 == b && pairwise_coprime_with(v, &qs) { got = Some(v); }
+            }
+            if got.is_some() { break; }
+        }
+        qs.push(got?);
+    }
+    let order = match rng.below(3) { 0 => { qs.sort(); "asc" } 1 => { qs.sort(); qs.reverse(); "desc" } _ => { rng.shuffle(&mut qs); "mixed" } };
+    let big_q = refm::product(&qs);
+    // plain modulus: 0 (CKKS-style tool) or 2..60 bits, coprime to every q_i, below Q
+    let qbits = big_q.bits();
+    let mut t = 0u64;
+    if qbits >= 3 && !rng.chance(1, 8) {
+        let maxb = (qbits - 1).min(60) as u64;
+        for _ in 0..200 {
+            let b = match rng.below(4) { 0 => maxb, 1 => rng.range(2, maxb.min(20)), _ => rng.range(2, maxb) } as u32;
+            let top = 1u64 << (b - 1);
+            let cand = match rng.below(4) {
+                0 => ntt_prime(rng, n, b, &qs).unwrap_or(top),
+                1 => top,
+                _ => (rng.bits(b) | top).max(2),
+            };
+            if cand >= 2 && refm::bit_len(cand) <= 60 && pairwise_coprime_with(cand, &qs) && bu(cand).cmp_u(&big_q) == Ordering::Less { t = cand; break; }
+        }
+    }
+    Some((n, qs, t, ntt_class, pname, order))
+}
+
+fn build_tool(cx: &Cx, rep: &mut Report, n: usize, qs: &[u64], t: u64, ntt_class: bool, pname: &str, order: &str) -> Option<Tool> {
+    let k = qs.len();
+    let logn = n.trailing_zeros() as usize;
+    let desc0 = json!({"N": n, "q": qs, "t": t});
+    let class = kcls(k);
+    let r = lib(|| {
+        let ms: Vec<Modulus> = qs.iter().map(|&q| Modulus::new(q)).collect();
+        let base = RNSBase::new(&ms)?;
+        // exactly what ContextData::validate does
+        let tool = RNSTool::new(n, &base, &Modulus::new(t))?;
+        let tables = if ntt_class { Some(NTTTables::create_ntt_tables(logn, &ms)?) } else { None };
+        Ok::<_, String>((tool, tables))
+    });
+    let (tool, tables) = match r {
+        Ok(Ok(x)) => x,
+        Ok(Err(e)) => { cx.viol(rep, "RNSTool::new", class, "refused", format!("valid parameters {} refused: {}", desc0, e), desc0.clone()); return None; }
+        Err(p) => { cx.viol(rep, "RNSTool::new", class, "panic", format!("parameters {}: {}", desc0, p.0), desc0.clone()); return None; }
+    };
+    rep.count("routine", "RNSTool::new");
+    // ---- auxiliary bases: read back and check against the documented construction
+    let b: Vec<u64> = tool.base_B().base().iter().map(|m| m.value()).collect();
+    let bsk: Vec<u64> = tool.base_Bsk().base().iter().map(|m| m.value()).collect();
+    let bskmt: Vec<u64> = tool.base_Bsk_m_tilde().base().iter().map(|m| m.value()).collect();
+    let kb = b.len();
+    let aux = aux_primes(n, kb + 2);
+    let (msk, gamma) = (aux[0], aux[1]);
+    let mut want_bsk = aux[2..].to_vec(); want_bsk.push(msk);
+    let mut want_bskmt = want_bsk.clone(); want_bskmt.push(MT);
+    let tg: Option<Vec<u64>> = tool.base_t_gamma().as_ref().map(|x| x.base().iter().map(|m| m.value()).collect());
+    let big_q = refm::product(qs);
+    let big_b = refm::product(&b);
+    let big_bsk = big_b.mul_u64(msk);
+    let mut ok = true;
+    if !(kb == k || kb == k + 1) || b != aux[2..] || bsk != want_bsk || bskmt != want_bskmt || (t != 0 && tg != Some(vec![t, gamma])) || (t == 0 && tg.is_some()) {
+        cx.viol(rep, "RNSTool::new", class, "value", format!("auxiliary bases differ from the documented construction: B={:?} Bsk={:?} Bsk_m_tilde={:?} t_gamma={:?}; expected m_sk={} gamma={} B={:?}; parameters {}", b, bsk, bskmt, tg, msk, gamma, &aux[2..], desc0), desc0.clone());
+        ok = false;
+    }
+    // sizing: 2^32 * t * Q^2 < Q * prod(B) * m_sk   (comment in RNSTool::new; t = 1 when absent)
+    let lhs = big_q.mul_u64(t.max(1)).shl(32);
+    if ok && lhs.cmp_u(&big_bsk) != Ordering::Less {
+        cx.viol(rep, "RNSTool::new", class, "value", format!("auxiliary base too small: 2^32*t*Q = {} >= prod(B)*m_sk = {}; parameters {}", lhs.to_dec(), big_bsk.to_dec(), desc0), desc0.clone());
+    }
+    if !ok { return None; }
+    rep.count("B_auxbase_minus_k", &format!("k={} |B|-k={}", k, kb - k));
+    let mut mods = bsk.clone(); mods.push(MT);
+    let q_mod_bsk_mt: Vec<u64> = mods.iter().map(|&m| big_q.rem_u64(m)).collect();
+    let qinv_mt = refm::invmod(big_q.rem_u64(MT), MT).expect("Q odd");
+    let mut psis = vec![];
+    let mut tables = tables;
+    if let Some(tb) = &tables {
+        for i in 0..k { psis.push(tb[i].root()); }
+        if !(0..k).all(|i| refm::is_primitive_2n_root(psis[i], n, qs[i])) { rep.note("an NTT table root was not a primitive 2N-th root; NTT-form routines skipped for that tool (C09 territory)"); tables = None; }
+    }
+    let bits: Vec<usize> = qs.iter().map(|&m| refm::bit_len(m)).collect();
+    for &bq in &bits { rep.count("B_q_modulus_bits", &format!("{:02}", bq)); }
+    rep.count("B_base_size", &format!("{}", k));
+    rep.count("B_N", &format!("{:02}", n));
+    rep.count("B_t_bits", &format!("{:02}", refm::bit_len(t)));
+    rep.count("B_q_kind", if ntt_class { "ntt_primes" } else { "odd_coprime" });
+    rep.count("B_q_order", order);
+    rep.count("B_q_profile", pname);
+    let desc = json!({"N": n, "q": qs, "q_bits": bits, "t": t, "B": b, "m_sk": msk, "gamma": gamma, "m_tilde": MT});
+    Some(Tool { n, logn, k, kb, qs: qs.to_vec(), t, bsk, msk, gamma, big_q, big_b, big_bsk, q_mod_bsk_mt, qinv_mt, tool, tables, psis, ntt_class, desc })
+}
+
+/// values in [0,Q): all of them when Q <= 4096, otherwise boundary + random; padded to a multiple of N
+fn xs_mod_q(rng: &mut Rng, tl: &Tool, want: usize) -> (Vec<BigU>, &'static str) {
+    let n = tl.n;
+    let one = BigU::one();
+    let mut v: Vec<BigU>;
+    let cls;
+    if tl.big_q.bits() <= 12 {
+        v = (0..tl.big_q.low_u64()).map(bu).collect(); cls = "all_below_Q";
+    } else {
+        v = a_boundary_values(rng, &tl.qs, &tl.big_q).into_iter().map(|x| x.0).collect();
+        // around the centering boundary and the Montgomery representative switch
+        let h = tl.big_q.shr(1); // (Q-1)/2
+        for d in 0..3u64 { v.push(h.add_u64(1 + d)); if h.cmp_u(&bu(d)) == Ordering::Greater { v.push(h.sub(&bu(d))); } }
+        let slack = tl.big_q.mul_u64(tl.k as u64).shr(32);
+        v.push(h.add(&one).add(&slack).rem(&tl.big_q)); v.push(h.add(&one).add(&slack.shr(1)).rem(&tl.big_q));
+        v.truncate(want.max(n));
+        while v.len() < want { v.push(rand_below_big(rng, &tl.big_q)); }
+        cls = "boundary+random";
+    }
+    while v.len() % n != 0 { v.push(rand_below_big(rng, &tl.big_q)); }
+    let _ = one;
+    (v, cls)
+}
+fn center(x: &BigU, q: &BigU) -> BigI { centered(x, q) }
+
+// ------------------------------------------------------------------ (1) fastbconv_m_tilde
+/// spec: input x mod q_i (x in [0,Q)); output in Bsk u {m_tilde}: there is ONE alpha in [0,k) with
+/// out_j = ([m_tilde*x]_Q + alpha*Q) mod b_j for every component j.
+/// Returns c'' = [m_tilde*x]_Q + alpha*Q per coefficient and the raw output.
+fn chk_m_tilde(cx: &Cx, rep: &mut Report, tl: &Tool, xs: &[BigU], icls: &str) -> Option<(Vec<BigU>, Vec<u64>)> {
+    let (n, k) = (tl.n, tl.k);
+    let op = "fastbconv_m_tilde";
+    let input = layout_u(xs, &tl.qs);
+    let r = lib(|| { let mut out = vec![0u64; (tl.kb + 2) * n]; tl.tool.fastbconv_m_tilde(&input, &mut out); out });
+    let out = match r { Ok(o) => o, Err(p) => { cx.viol(rep, op, tl.kc(), "panic", format!("x={:?}: {}", dec(xs), p.0), tl.info(json!({"x": dec(xs)}))); return None; } };
+    let mut ms = tl.bsk.clone(); ms.push(MT);
+    let mut cs = vec![]; let mut all_ok = true;
+    for j in 0..n {
+        let u0 = xs[j].shl(32).rem(&tl.big_q);
+        let base: Vec<u64> = ms.iter().map(|&m| u0.rem_u64(m)).collect();
+        let obs = column(&out, n, ms.len(), j);
+        match find_offset(&obs, &ms, &base, &tl.q_mod_bsk_mt, k, false) {
+            Some(a) => { rep.count("B_alpha:fastbconv_m_tilde", &format!("k={} alpha={}", k, a)); cs.push(u0.add(&tl.big_q.mul_u64(a as u64))); }
+            None => {
+                all_ok = false;
+                cx.viol(rep, op, tl.kc(), "value", format!("x={} : output {:?} over moduli {:?} is not ([2^32*x]_Q + alpha*Q) for any alpha in [0,{}) ([2^32*x]_Q = {}); tool {}", xs[j].to_dec(), obs, ms, k, u0.to_dec(), tl.desc), tl.info(json!({"x": xs[j].to_dec(), "coefficient": j})));
+                cs.push(u0);
+            }
+        }
+    }
+    rep.count_n("B_routine_x_k", &format!("{} k={}", op, k), n as u64);
+    rep.count_n("routine", op, n as u64);
+    rep.count_n(&format!("B_inputs:{}", op), icls, n as u64);
+    rep.evals(n as u64);
+    if all_ok { Some((cs, out)) } else { None }
+}
+
+// ------------------------------------------------------------------ (2) sm_mrq
+/// spec: input c'' in Bsk u {m_tilde}; r = centred residue of -c''*Q^-1 mod m_tilde (in [-2^31, 2^31);
+/// at the tie r = 2^31 either sign is a valid Montgomery reduction); (c'' + Q*r) is divisible by
+/// m_tilde and out_j = ((c'' + Q*r)/m_tilde) mod b_j.  Returns the integer (c''+Q r)/m_tilde.
+fn sm_mrq_expected(tl: &Tool, c: &BigU) -> (BigI, bool) {
+    let cm = c.rem_u64(MT);
+    let r = (MT - refm::mulmod(cm, tl.qinv_mt, MT)) % MT;
+    let rt: i64 = if r >= 1 << 31 { r as i64 - (1i64 << 32) } else { r as i64 };
+    let num = to_i(c).add(&to_i(&tl.big_q).mul(&bi(rt)));
+    let (val, rem) = num.divmod_floor(&bu(MT));
+    assert!(rem.is_zero(), "oracle: Montgomery numerator not divisible by m_tilde");
+    (val, r == 1 << 31)
+}
+fn chk_sm_mrq(cx: &Cx, rep: &mut Report, tl: &Tool, cs: &[BigU], raw_in: Option<&[u64]>, icls: &str) -> Option<(Vec<BigI>, Vec<u64>)> {
+    let n = tl.n;
+    let op = "sm_mrq";
+    let mut ms = tl.bsk.clone(); ms.push(MT);
+    let input = match raw_in { Some(r) => r.to_vec(), None => layout_u(cs, &ms) };
+    let r = lib(|| { let mut out = vec![0u64; (tl.kb + 1) * n]; tl.tool.sm_mrq(&input, &mut out); out });
+    let out = match r { Ok(o) => o, Err(p) => { cx.viol(rep, op, tl.kc(), "panic", format!("c''={:?}: {}", dec(cs), p.0), tl.info(json!({"c": dec(cs)}))); return None; } };
+    let mut vals = vec![]; let mut all_ok = true;
+    for j in 0..n {
+        let (val, tie) = sm_mrq_expected(tl, &cs[j]);
+        let obs = column(&out, n, tl.bsk.len(), j);
+        let want: Vec<u64> = tl.bsk.iter().map(|&m| val.mod_u64(m)).collect();
+        let mut good = obs == want;
+        let mut used = val.clone();
+        if !good && tie {
+            let alt = val.add(&to_i(&tl.big_q));
+            let want2: Vec<u64> = tl.bsk.iter().map(|&m| alt.mod_u64(m)).collect();
+            if obs == want2 { good = true; used = alt; }
+        }
+        if tie { rep.count("B_sm_mrq_tie_r=2^31", "seen"); }
+        if !good {
+            all_ok = false;
+            cx.viol(rep, op, tl.kc(), "value", format!("c''={} : output {:?} over Bsk {:?}, expected (c''+Q*r)/m_tilde = {} i.e. {:?}; tool {}", cs[j].to_dec(), obs, tl.bsk, val.to_dec(), want, tl.desc), tl.info(json!({"c": cs[j].to_dec(), "coefficient": j})));
+        }
+        vals.push(used);
+    }
+    rep.count_n("B_routine_x_k", &format!("{} k={}", op, tl.k), n as u64);
+    rep.count_n("routine", op, n as u64);
+    rep.count_n(&format!("B_inputs:{}", op), icls, n as u64);
+    rep.evals(n as u64);
+    if all_ok { Some((vals, out)) } else { None }
+}
+
+// ------------------------------------------------------------------ (3) fast_floor
+/// spec: input z in q u Bsk; there is ONE beta in [0,k) with out_j = (floor(z/Q) - beta) mod b_j for all j.
+/// Returns floor(z/Q) - beta.
+fn chk_fast_floor(cx: &Cx, rep: &mut Report, tl: &Tool, zs: &[BigI], raw_in: Option<&[u64]>, icls: &str) -> Option<(Vec<BigI>, Vec<u64>)> {
+    let (n, k) = (tl.n, tl.k);
+    let op = "fast_floor";
+    let mut ms = tl.qs.clone(); ms.extend(&tl.bsk);
+    let input = match raw_in { Some(r) => r.to_vec(), None => layout_i(zs, &ms) };
+    let r = lib(|| { let mut out = vec![0u64; (tl.kb + 1) * n]; tl.tool.fast_floor(&input, &mut out); out });
+    let out = match r { Ok(o) => o, Err(p) => { cx.viol(rep, op, tl.kc(), "panic", format!("z={:?}: {}", deci(zs), p.0), tl.info(json!({"z": deci(zs)}))); return None; } };
+    let ones = vec![1u64; tl.bsk.len()];
+    let mut res = vec![]; let mut all_ok = true;
+    for j in 0..n {
+        let f = zs[j].divmod_floor(&tl.big_q).0;
+        let base: Vec<u64> = tl.bsk.iter().map(|&m| f.mod_u64(m)).collect();
+        let obs = column(&out, n, tl.bsk.len(), j);
+        match find_offset(&obs, &tl.bsk, &base, &ones, k, true) {
+            Some(b) => { rep.count("B_beta:fast_floor", &format!("k={} beta={}", k, b)); res.push(f.sub(&bi(b as i64))); }
+            None => {
+                all_ok = false;
+                cx.viol(rep, op, tl.kc(), "value", format!("z={} : output {:?} over Bsk {:?} is not floor(z/Q) - beta for any beta in [0,{}) (floor(z/Q) = {}); tool {}", zs[j].to_dec(), obs, tl.bsk, k, f.to_dec(), tl.desc), tl.info(json!({"z": zs[j].to_dec(), "coefficient": j})));
+                res.push(f);
+            }
+        }
+    }
+    rep.count_n("B_routine_x_k", &format!("{} k={}", op, k), n as u64);
+    rep.count_n("routine", op, n as u64);
+    rep.count_n(&format!("B_inputs:{}", op), icls, n as u64);
+    rep.evals(n as u64);
+    if all_ok { Some((res, out)) } else { None }
+}
+
+// ------------------------------------------------------------------ (4) fastbconv_sk
+/// spec: input w in Bsk (B-part and m_sk-part of the same integer w); out_i = w mod q_i EXACTLY
+/// whenever lambda = floor(w/prod(B)) satisfies |B|-1-(m_sk-1)/2 <= lambda <= (m_sk-1)/2
+/// (then alpha_B - lambda has a centred representative mod m_sk for every possible alpha_B in [0,|B|)).
+fn chk_sk(cx: &Cx, rep: &mut Report, tl: &Tool, ws: &[BigI], raw_in: Option<&[u64]>, icls: &str) -> Option<Vec<u64>> {
+    let (n, k) = (tl.n, tl.k);
+    let op = "fastbconv_sk";
+    let input = match raw_in { Some(r) => r.to_vec(), None => layout_i(ws, &tl.bsk) };
+    let r = lib(|| { let mut out = vec![0u64; k * n]; tl.tool.fastbconv_sk(&input, &mut out); out });
+    let h = (tl.msk - 1) / 2;
+    let lo = bi(tl.kb as i64 - 1).sub(&to_i(&bu(h)));
+    let hi = to_i(&bu(h));
+    let in_pre: Vec<bool> = ws.iter().map(|w| { let l = w.divmod_floor(&tl.big_b).0; l.cmp_i(&lo) != Ordering::Less && l.cmp_i(&hi) != Ordering::Greater }).collect();
+    let out = match r {
+        Ok(o) => o,
+        Err(p) => {
+            if in_pre.iter().all(|&b| b) { cx.viol(rep, op, tl.kc(), "panic", format!("w={:?}: {}", deci(ws), p.0), tl.info(json!({"w": deci(ws)}))); } else { rep.out_of_precondition += n as u64; }
+            return None;
+        }
+    };
+    let mut all_ok = true;
+    for j in 0..n {
+        if !in_pre[j] { rep.out_of_precondition += 1; rep.count("B_fastbconv_sk_outside_range", if column(&out, n, k, j) == tl.qs.iter().map(|&m| ws[j].mod_u64(m)).collect::<Vec<_>>() { "still_exact" } else { "inexact" }); continue; }
+        let obs = column(&out, n, k, j);
+        let want: Vec<u64> = tl.qs.iter().map(|&m| ws[j].mod_u64(m)).collect();
+        if obs != want {
+            all_ok = false;
+            cx.viol(rep, op, tl.kc(), "value", format!("w={} : output {:?} over q {:?}, expected w mod q_i = {:?}; tool {}", ws[j].to_dec(), obs, tl.qs, want, tl.desc), tl.info(json!({"w": ws[j].to_dec(), "coefficient": j})));
+        }
+        rep.evals(1);
+    }
+    rep.count_n("B_routine_x_k", &format!("{} k={}", op, k), n as u64);
+    rep.count_n("routine", op, n as u64);
+    rep.count_n(&format!("B_inputs:{}", op), icls, n as u64);
+    if all_ok { Some(out) } else { None }
+}
+
+// ------------------------------------------------------------------ (5) the four composed as BFV multiply uses them
+/// One coefficient product: x1, x2 (centred mod Q) -> [fastbconv_m_tilde, sm_mrq] each -> coefficient-wise
+/// products in q and in Bsk, times t (harness glue, steps (4)-(6) of bfv_multiply without the NTT) ->
+/// fast_floor -> fastbconv_sk.
+/// spec: result_i = (floor(t*x1'*x2'/Q) - beta) mod q_i with ONE beta in [0,k) for all i, where x' is the
+/// Montgomery representative of x: x' = x_centred, or x_centred + Q when x_centred < -Q/2 + k*Q/2^32.
+/// With centred representatives this is round(t*x1*x2/Q) - delta, delta in [0,k].
+fn chk_composed(cx: &Cx, rep: &mut Report, tl: &Tool, x1: &[BigI], x2: &[BigI], icls: &str) {
+    let (n, k, t) = (tl.n, tl.k, tl.t);
+    let op = "bfv_multiply_pipeline";
+    let nb = tl.bsk.len();
+    let a_q = layout_i(x1, &tl.qs); let b_q = layout_i(x2, &tl.qs);
+    let r = lib(|| {
+        let lift = |inp: &[u64]| { let mut tmp = vec![0u64; (tl.kb + 2) * n]; tl.tool.fastbconv_m_tilde(inp, &mut tmp); let mut o = vec![0u64; nb * n]; tl.tool.sm_mrq(&tmp, &mut o); o };
+        let a_b = lift(&a_q); let b_b = lift(&b_q);
+        let mut zin = vec![0u64; (k + nb) * n];
+        for i in 0..k { let m = tl.qs[i]; for j in 0..n { zin[i * n + j] = refm::mulmod(refm::mulmod(a_q[i * n + j], b_q[i * n + j], m), t % m, m); } }
+        for i in 0..nb { let m = tl.bsk[i]; for j in 0..n { zin[(k + i) * n + j] = refm::mulmod(refm::mulmod(a_b[i * n + j], b_b[i * n + j], m), t % m, m); } }
+        let mut fl = vec![0u64; nb * n]; tl.tool.fast_floor(&zin, &mut fl);
+        let mut res = vec![0u64; k * n]; tl.tool.fastbconv_sk(&fl, &mut res);
+        res
+    });
+    let res = match r { Ok(o) => o, Err(p) => { cx.viol(rep, op, tl.kc(), "panic", format!("x1={:?} x2={:?}: {}", deci(x1), deci(x2), p.0), tl.info(json!({"x1": deci(x1), "x2": deci(x2)}))); return; } };
+    let qi = to_i(&tl.big_q);
+    let reps = |x: &BigI| -> Vec<(BigI, bool)> {
+        let mut v = vec![(x.clone(), false)];
+        // 2^32*(2x + Q) < 2kQ  <=>  x < -Q/2 + kQ/2^32
+        let lhs = BigI { neg: x.neg, m: x.m.shl(1) }.add(&qi);
+        let lhs = BigI { neg: lhs.neg, m: lhs.m.shl(32) };
+        if lhs.cmp_i(&to_i(&tl.big_q.mul_u64(2 * k as u64))) == Ordering::Less { v.push((x.add(&qi), true)); }
+        v
+    };
+    let ones = vec![1u64; k];
+    for j in 0..n {
+        let obs = column(&res, n, k, j);
+        let mut found = None;
+        'search: for (r1, s1) in reps(&x1[j]) { for (r2, s2) in reps(&x2[j]) {
+            let v = r1.mul(&r2).mul_u64(t);
+            let f = v.divmod_floor(&tl.big_q).0;
+            let base: Vec<u64> = tl.qs.iter().map(|&m| f.mod_u64(m)).collect();
+            if let Some(b) = find_offset(&obs, &tl.qs, &base, &ones, k, true) { found = Some((b, s1 || s2, f)); break 'search; }
+        } }
+        match found {
+            Some((b, shifted, f)) => {
+                rep.count("B_beta:composed", &format!("k={} beta={}", k, b));
+                if shifted { rep.count("B_composed_montgomery_rep", "x+Q"); } else {
+                    rep.count("B_composed_montgomery_rep", "centred");
+                    let rr = x1[j].mul(&x2[j]).mul_u64(t).div_round_half_up(&tl.big_q);
+                    let delta = rr.sub(&f).add(&bi(b as i64)).to_i128().unwrap_or(-99);
+                    rep.count("B_composed_round_minus_result", &format!("k={} delta={}", k, delta));
+                    if delta < 0 || delta > k as i128 { cx.viol(rep, op, tl.kc(), "value", format!("oracle inconsistency delta={}", delta), tl.info(json!({}))); }
+                }
+            }
+            None => {
+                let rr = x1[j].mul(&x2[j]).mul_u64(t).div_round_half_up(&tl.big_q);
+                cx.viol(rep, op, tl.kc(), "value", format!("x1={} x2={} t={} : result {:?} over q {:?} is not floor(t*x1'*x2'/Q) - beta for beta in [0,{}) (round(t*x1*x2/Q) = {}, residues {:?}); tool {}", x1[j].to_dec(), x2[j].to_dec(), t, obs, tl.qs, k, rr.to_dec(), tl.qs.iter().map(|&m| rr.mod_u64(m)).collect::<Vec<_>>(), tl.desc), tl.info(json!({"x1": x1[j].to_dec(), "x2": x2[j].to_dec(), "coefficient": j})));
+            }
+        }
+    }
+    rep.count_n("B_routine_x_k", &format!("{} k={}", op, k), n as u64);
+    rep.count_n("routine", op, n as u64);
+    rep.count_n(&format!("B_inputs:{}", op), icls, n as u64);
+    rep.evals(n as u64);
+}
+
+// ------------------------------------------------------------------ (6) divide_and_round_q_last (coefficient and NTT form)
+fn ntt_poly(tl: &Tool, data: &[u64], comps: usize) -> Vec<u64> {
+    let n = tl.n; let mut out = vec![0u64; comps * n];
+    for i in 0..comps { out[i * n..(i + 1) * n].copy_from_slice(&refm::ntt_ref(&data[i * n..(i + 1) * n], tl.psis[i], tl.qs[i])); }
+    out
+}
+fn intt_poly(tl: &Tool, data: &[u64], comps: usize) -> Vec<u64> {
+    let n = tl.n; let mut out = vec![0u64; comps * n];
+    for i in 0..comps { out[i * n..(i + 1) * n].copy_from_slice(&refm::intt_ref(&data[i * n..(i + 1) * n], tl.psis[i], tl.qs[i])); }
+    out
+}
+/// spec: x in [0,Q), k >= 2: component i < k-1 becomes floor((x + floor(q_k/2))/q_k) mod q_i (= nearest integer
+/// to x/q_k, q_k odd); the NTT-form routine gives the transform of exactly the same polynomial.
+fn chk_div_round(cx: &Cx, rep: &mut Report, tl: &Tool, xs: &[BigU], icls: &str) {
+    let (n, k) = (tl.n, tl.k);
+    if k < 2 { return; }
+    let qk = tl.qs[k - 1]; let half = qk >> 1;
+    let want_int: Vec<BigU> = xs.iter().map(|x| x.add_u64(half).div(&bu(qk))).collect();
+    let want = layout_u(&want_int, &tl.qs[..k - 1]);
+    let input = layout_u(xs, &tl.qs);
+    let first_bad = |got: &[u64], want: &[u64]| (0..want.len()).find(|&p| got[p] != want[p]);
+    {
+        let op = "divide_and_round_q_last_inplace";
+        match lib(|| { let mut a = input.clone(); tl.tool.divide_and_round_q_last_inplace(&mut a); a }) {
+            Ok(a) => if let Some(p) = first_bad(&a, &want) {
+                let j = p % n;
+                cx.viol(rep, op, tl.kc(), "value", format!("x={} : component {} = {}, expected round(x/q_k) = {} mod {} = {}; tool {}", xs[j].to_dec(), p / n, a[p], want_int[j].to_dec(), tl.qs[p / n], want[p], tl.desc), tl.info(json!({"x": xs[j].to_dec(), "coefficient": j})));
+            },
+            Err(p) => cx.viol(rep, op, tl.kc(), "panic", format!("x={:?}: {}", dec(xs), p.0), tl.info(json!({"x": dec(xs)}))),
+        }
+        rep.count_n("B_routine_x_k", &format!("{} k={}", op, k), n as u64); rep.count_n("routine", op, n as u64);
+        rep.count_n(&format!("B_inputs:{}", op), icls, n as u64);
+        rep.evals(n as u64);
+    }
+    if let Some(tables) = &tl.tables {
+        let op = "divide_and_round_q_last_ntt_inplace";
+        let input_ntt = ntt_poly(tl, &input, k);
+        let want_ntt = ntt_poly(tl, &want, k - 1);
+        match lib(|| { let mut a = input_ntt.clone(); tl.tool.divide_and_round_q_last_ntt_inplace(&mut a, tables); a }) {
+            Ok(a) => if let Some(p) = first_bad(&a, &want_ntt) {
+                let back = intt_poly(tl, &a[..(k - 1) * n], k - 1);
+                let pc = first_bad(&back, &want).unwrap_or(p);
+                let j = pc % n;
+                cx.viol(rep, op, tl.kc(), "value", format!("NTT-form output differs from the transform of the coefficient-form result at slot {} (component {}): got {} expected {}; after inverse transform coefficient {} of component {} = {}, expected {} (x = {}); tool {}", p % n, p / n, a[p], want_ntt[p], j, pc / n, back[pc], want[pc], xs[j].to_dec(), tl.desc), tl.info(json!({"x": dec(xs)})));
+            },
+            Err(p) => cx.viol(rep, op, tl.kc(), "panic", format!("x={:?}: {}", dec(xs), p.0), tl.info(json!({"x": dec(xs)}))),
+        }
+        rep.count_n("B_routine_x_k", &format!("{} k={}", op, k), n as u64); rep.count_n("routine", op, n as u64);
+        rep.count_n(&format!("B_inputs:{}", op), icls, n as u64);
+        rep.evals(n as u64);
+    }
+}
+
+// ------------------------------------------------------------------ (7) mod_t_and_divide_q_last (coefficient and NTT form)
+/// spec (k >= 2, t != 0, 2*t*q_k < Q): with y the lift of the first k-1 output components modulo Q' = Q/q_k,
+/// e = centred((y*q_k - x) mod Q) satisfies e = 0 (mod t) and |e| <= t*q_k, i.e. y*q_k = x (mod t)
+/// ("value preserved modulo t up to the factor q_k") and |y - x/q_k| <= t. When additionally
+/// |x_centred| + (t+1)*q_k < Q/2 the same holds literally on the centred lifts of x and y.
+fn chk_mod_t_div(cx: &Cx, rep: &mut Report, tl: &Tool, crt1: &Crt, xs: &[BigU], icls: &str) {
+    let (n, k, t) = (tl.n, tl.k, tl.t);
+    if k < 2 || t == 0 { return; }
+    let qk = tl.qs[k - 1];
+    let tqk = bu(t).mul_u64(qk);
+    let pre = tqk.shl(1).cmp_u(&tl.big_q) == Ordering::Less;
+    let input = layout_u(xs, &tl.qs);
+    let qinv_t = refm::invmod(qk % t, t);
+    let eval = |rep: &mut Report, op: &str, out: &[u64]| {
+        for j in 0..n {
+            if !pre { rep.out_of_precondition += 1; continue; }
+            let obs = column(out, n, k - 1, j);
+            if (0..k - 1).any(|i| obs[i] >= tl.qs[i]) {
+                cx.viol(rep, op, tl.kc(), "value", format!("x={} : unreduced output {:?} over {:?}; tool {}", xs[j].to_dec(), obs, &tl.qs[..k - 1], tl.desc), tl.info(json!({"x": xs[j].to_dec()})));
+                continue;
+            }
+            let y = crt1.compose(&obs);
+            let e = center(&y.mul_u64(qk).add(&tl.big_q).sub(&xs[j]).rem(&tl.big_q), &tl.big_q);
+            let mut good = e.mod_u64(t) == 0 && e.m.cmp_u(&tqk) != Ordering::Greater;
+            // literal statement on centred lifts when nothing can wrap
+            let xc = center(&xs[j], &tl.big_q);
+            let room = xc.m.add(&tqk).add_u64(qk).shl(1).cmp_u(&tl.big_q) == Ordering::Less;
+            if good && room {
+                let yc = center(&y, &crt1.big_q);
+                let d = yc.mul_u64(qk).sub(&xc);
+                if !(d.mod_u64(t) == 0 && d.m.cmp_u(&tqk) != Ordering::Greater) { good = false; }
+                rep.count("B_mod_t_div_centred_lift_checked", op);
+            }
+            if !good {
+                cx.viol(rep, op, tl.kc(), "value", format!("x={} (centred {}) : output {:?} over {:?} lifts to y={}, y*q_k - x = {} (mod Q) which is not a multiple of t={} within t*q_k={}; tool {}", xs[j].to_dec(), xc.to_dec(), obs, &tl.qs[..k - 1], y.to_dec(), e.to_dec(), t, tqk.to_dec(), tl.desc), tl.info(json!({"x": xs[j].to_dec(), "coefficient": j})));
+            }
+            // observation only: the deterministic formula y = floor(x/q_k) - [-(x mod q_k) q_k^-1]_t
+            if let Some(qi) = qinv_t {
+                let d = (t - refm::mulmod(xs[j].rem_u64(qk) % t, qi, t)) % t;
+                let yexp = to_i(&xs[j].div(&bu(qk))).sub(&to_i(&bu(d))).modp(&crt1.big_q);
+                rep.count("B_mod_t_div_equals_floor_minus_d", if yexp == y { "yes" } else { "no" });
+            }
+            rep.evals(1);
+        }
+        rep.count_n("B_routine_x_k", &format!("{} k={}", op, k), n as u64); rep.count_n("routine", op, n as u64);
+        rep.count_n(&format!("B_inputs:{}", op), icls, n as u64);
+    };
+    let op = "mod_t_and_divide_q_last_inplace";
+    match lib(|| { let mut a = input.clone(); tl.tool.mod_t_and_divide_q_last_inplace(&mut a); a }) {
+        Ok(a) => eval(rep, op, &a[..(k - 1) * n]),
+        Err(p) => if pre { cx.viol(rep, op, tl.kc(), "panic", format!("x={:?}: {}", dec(xs), p.0), tl.info(json!({"x": dec(xs)}))) } else { rep.out_of_precondition += n as u64 },
+    }
+    if let Some(tables) = &tl.tables {
+        let op = "mod_t_and_divide_q_last_ntt_inplace";
+        let input_ntt = ntt_poly(tl, &input, k);
+        match lib(|| { let mut a = input_ntt.clone(); tl.tool.mod_t_and_divide_q_last_ntt_inplace(&mut a, tables); a }) {
+            Ok(a) => { let back = intt_poly(tl, &a[..(k - 1) * n], k - 1); eval(rep, op, &back) }
+            Err(p) => if pre { cx.viol(rep, op, tl.kc(), "panic", format!("x={:?}: {}", dec(xs), p.0), tl.info(json!({"x": dec(xs)}))) } else { rep.out_of_precondition += n as u64 },
+        }
+    }
+}
+
+// ------------------------------------------------------------------ (8) decrypt_scale_and_round
+/// spec: x in [0,Q); R = round(t*x/Q), rem = t*x - R*Q in [-Q/2, Q/2). out = R mod t EXACTLY whenever
+/// floor(gamma*rem/Q) - (k-1) >= -(gamma-1)/2  (then the gamma-correction term floor(gamma*rem/Q) - alpha,
+/// alpha in [0,k), has a centred representative mod gamma; the upper side always holds). In terms of the
+/// noise v (x = (Q/t) m + v): every |v| <= Q/(2t) * (1 - 2k/gamma) is inside.
+fn chk_scale_round(cx: &Cx, rep: &mut Report, tl: &Tool, xs: &[BigU], icls: &str) {
+    let (n, k, t) = (tl.n, tl.k, tl.t);
+    if t == 0 { return; }
+    let op = "decrypt_scale_and_round";
+    let input = layout_u(xs, &tl.qs);
+    let r = lib(|| { let mut out = vec![0u64; n]; tl.tool.decrypt_scale_and_round(&input, &mut out); out });
+    let two_q = tl.big_q.shl(1);
+    let gh = bi(-(((tl.gamma - 1) / 2) as i64));
+    let mut pre = vec![]; let mut want = vec![]; let mut rems = vec![];
+    for x in xs {
+        let tx = x.mul_u64(t);
+        let rr = tx.shl(1).add(&tl.big_q).div(&two_q);
+        let rem = to_i(&tx).sub(&to_i(&rr.mul(&tl.big_q)));
+        let fl = rem.mul_u64(tl.gamma).divmod_floor(&tl.big_q).0;
+        pre.push(fl.sub(&bi(k as i64 - 1)).cmp_i(&gh) != Ordering::Less);
+        want.push(rr.rem_u64(t)); rems.push(rem);
+    }
+    let out = match r {
+        Ok(o) => o,
+        Err(p) => { if pre.iter().all(|&b| b) { cx.viol(rep, op, tl.kc(), "panic", format!("x={:?}: {}", dec(xs), p.0), tl.info(json!({"x": dec(xs)}))); } else { rep.out_of_precondition += n as u64; } return; }
+    };
+    for j in 0..n {
+        // distance of |rem| from Q/2 in units of Q (log2), smallest at which exactness was asserted
+        if !pre[j] { rep.out_of_precondition += 1; rep.count("B_scale_round_inside_gamma_margin", if out[j] == want[j] { "still_exact" } else { "off" }); continue; }
+        if out[j] != want[j] {
+            cx.viol(rep, op, tl.kc(), "value", format!("x={} : got {} expected round(t*x/Q) mod t = {} (t*x - R*Q = {}); tool {}", xs[j].to_dec(), out[j], want[j], rems[j].to_dec(), tl.desc), tl.info(json!({"x": xs[j].to_dec(), "coefficient": j})));
+        }
+        let dist = tl.big_q.sub(&rems[j].m.shl(1)); // Q - 2|rem| >= 1
+        let lg = dist.bits() as f64 - tl.big_q.bits() as f64;
+        rep.min(if rems[j].neg { "scale_and_round: log2(1 - 2|v|t/Q) closest to -Q/(2t) at which exact rounding was asserted (gamma margin side)" } else { "scale_and_round: log2(1 - 2|v|t/Q) closest to +Q/(2t) at which exact rounding was asserted" }, lg);
+        rep.evals(1);
+    }
+    rep.count_n("B_routine_x_k", &format!("{} k={}", op, k), n as u64); rep.count_n("routine", op, n as u64);
+    rep.count_n(&format!("B_inputs:{}", op), icls, n as u64);
+}
+/// inputs for (8): chosen (rem) targets solved for x, plus generic values
+fn xs_scale_round(rng: &mut Rng, tl: &Tool, generic: &[BigU], want: usize) -> Vec<BigU> {
+    let t = tl.t; let n = tl.n;
+    let qinv_t = refm::invmod(tl.big_q.rem_u64(t), t).expect("gcd(Q,t)=1");
+    let h = to_i(&tl.big_q.shr(1)); // (Q-1)/2
+    let tq = to_i(&tl.big_q.mul_u64(t));
+    let mut targets: Vec<BigI> = vec![bi(0), bi(1), bi(-1), h.clone(), h.neg(), h.sub(&bi(1)), h.neg().add(&bi(1))];
+    // the exactness threshold: smallest rem with floor(gamma*rem/Q) >= k-1-(gamma-1)/2, and its neighbours
+    let num = to_i(&tl.big_q).mul(&bi(2 * tl.k as i64 - 1).sub(&to_i(&bu(tl.gamma))));
+    let thr = num.add(&to_i(&bu(2 * tl.gamma - 1))).divmod_floor(&bu(2 * tl.gamma)).0; // ceil
+    for d in -2i64..=2 { targets.push(thr.add(&bi(d))); }
+    for _ in 0..8 { let r = rand_below_big(rng, &tl.big_q.shr(1).add_u64(1)); targets.push(if rng.bool() { to_i(&r) } else { to_i(&r).neg() }); }
+    let mut v = vec![];
+    for rem in targets {
+        if rem.m.cmp_u(&h.m) == Ordering::Greater { continue; }
+        let rr = (t - refm::mulmod(rem.mod_u64(t), qinv_t, t)) % t;
+        let mut num = to_i(&tl.big_q.mul_u64(rr)).add(&rem);
+        if num.neg { num = num.add(&tq); }
+        let (x, r0) = num.divmod_floor(&bu(t));
+        assert!(r0.is_zero(), "oracle: scale_and_round target not solvable");
+        if !x.neg && x.m.cmp_u(&tl.big_q) == Ordering::Less { v.push(x.m); }
+    }
+    for g in generic { if v.len() >= want { break; } v.push(g.clone()); }
+    while v.len() % n != 0 { v.push(rand_below_big(rng, &tl.big_q)); }
+    v
+}
+
+// ------------------------------------------------------------------ (9) decrypt_mod_t
+/// spec: x in [0,Q): out = centred([x]_Q) mod t EXACTLY whenever |2x - Q| >= Q*2^-39, i.e. the centred value
+/// is at least Q*2^-40 away from +-Q/2 (the quotient estimate is a double-precision sum of k <= 8 terms,
+/// error < 2^-46).
+fn chk_decrypt_mod_t(cx: &Cx, rep: &mut Report, tl: &Tool, xs: &[BigU], icls: &str) {
+    let (n, k, t) = (tl.n, tl.k, tl.t);
+    if t == 0 { return; }
+    let op = "decrypt_mod_t";
+    let input = layout_u(xs, &tl.qs);
+    let r = lib(|| { let mut out = vec![0u64; n]; tl.tool.decrypt_mod_t(&input, &mut out); out });
+    let pre: Vec<bool> = xs.iter().map(|x| { let d = to_i(&x.shl(1)).sub(&to_i(&tl.big_q)); d.m.shl(39).cmp_u(&tl.big_q) != Ordering::Less }).collect();
+    let out = match r {
+        Ok(o) => o,
+        Err(p) => { if pre.iter().all(|&b| b) { cx.viol(rep, op, tl.kc(), "panic", format!("x={:?}: {}", dec(xs), p.0), tl.info(json!({"x": dec(xs)}))); } else { rep.out_of_precondition += n as u64; } return; }
+    };
+    for j in 0..n {
+        let xc = center(&xs[j], &tl.big_q);
+        let want = xc.mod_u64(t);
+        if !pre[j] { rep.out_of_precondition += 1; rep.count("B_decrypt_mod_t_inside_float_margin", if out[j] == want { "still_exact" } else { "other_representative" }); continue; }
+        if out[j] != want {
+            cx.viol(rep, op, tl.kc(), "value", format!("x={} (centred {}) : got {} expected {} (mod t={}); tool {}", xs[j].to_dec(), xc.to_dec(), out[j], want, t, tl.desc), tl.info(json!({"x": xs[j].to_dec(), "coefficient": j})));
+        }
+        rep.evals(1);
+    }
+    rep.count_n("B_routine_x_k", &format!("{} k={}", op, k), n as u64); rep.count_n("routine", op, n as u64);
+    rep.count_n(&format!("B_inputs:{}", op), icls, n as u64);
+}
+
+// ------------------------------------------------------------------ the per-tool case
+fn pad_i(rng: &mut Rng, v: &mut Vec<BigI>, n: usize, m: &BigU) { while v.len() % n != 0 { v.push(to_i(&rand_below_big(rng, m))); } }
+fn pad_u(rng: &mut Rng, v: &mut Vec<BigU>, n: usize, m: &BigU) { while v.len() % n != 0 { v.push(rand_below_big(rng, m)); } }
+
+fn b_sample(tl: &Tool, xs: &[BigU]) -> Value {
+    let n = tl.n; let k = tl.k;
+    let x = &xs[..n];
+    let input = layout_u(x, &tl.qs);
+    let r = lib(|| {
+        let mut o = serde_json::Map::new();
+        let mut mt = vec![0u64; (tl.kb + 2) * n]; tl.tool.fastbconv_m_tilde(&input, &mut mt);
+        o.insert("fastbconv_m_tilde(x) [Bsk..,m_tilde]".into(), json!(column(&mt, n, tl.kb + 2, 0)));
+        let mut sm = vec![0u64; (tl.kb + 1) * n]; tl.tool.sm_mrq(&mt, &mut sm);
+        o.insert("sm_mrq(previous) [Bsk]".into(), json!(column(&sm, n, tl.kb + 1, 0)));
+        if k >= 2 {
+            let mut a = input.clone(); tl.tool.divide_and_round_q_last_inplace(&mut a);
+            o.insert("divide_and_round_q_last_inplace(x) [q_1..q_{k-1}]".into(), json!(column(&a, n, k - 1, 0)));
+            if tl.t != 0 { let mut a = input.clone(); tl.tool.mod_t_and_divide_q_last_inplace(&mut a); o.insert("mod_t_and_divide_q_last_inplace(x) [q_1..q_{k-1}]".into(), json!(column(&a, n, k - 1, 0))); }
+        }
+        if tl.t != 0 {
+            let mut d = vec![0u64; n]; tl.tool.decrypt_scale_and_round(&input, &mut d); o.insert("decrypt_scale_and_round(x)".into(), json!(d[0]));
+            let mut d = vec![0u64; n]; tl.tool.decrypt_mod_t(&input, &mut d); o.insert("decrypt_mod_t(x)".into(), json!(d[0]));
+        }
+        Value::Object(o)
+    });
+    let tx = x[0].mul_u64(tl.t.max(1));
+    json!({"group": "B_tool", "tool": tl.desc, "x": x[0].to_dec(), "x mod q_i": column(&input, n, k, 0),
+        "oracle": {"[2^32*x]_Q": x[0].shl(32).rem(&tl.big_q).to_dec(), "round(x/q_k)": if k >= 2 { x[0].add_u64(tl.qs[k - 1] >> 1).div(&bu(tl.qs[k - 1])).to_dec() } else { "-".into() },
+                   "round(t*x/Q)": tx.shl(1).add(&tl.big_q).div(&tl.big_q.shl(1)).to_dec(), "centred(x)": center(&x[0], &tl.big_q).to_dec()},
+        "observed": r.unwrap_or(json!("panicked"))})
+}
+
+fn b_case(cx: &Cx, rng: &mut Rng, rep: &mut Report) {
+    let Some((n, qs, t, ntt_class, pname, order)) = gen_tool_params(rng) else { rep.out_of_precondition += 1; return };
+    let Some(tl) = build_tool(cx, rep, n, &qs, t, ntt_class, pname, order) else { return };
+    let k = tl.k;
+    let nv = cx.cfg.pick(96, 192);
+    let (xs, xcls) = xs_mod_q(rng, &tl, nv);
+    let one = BigU::one();
+    if cx.case < 4 { rep.sample(b_sample(&tl, &xs[xs.len() - n..])); }
+
+    // (1) + (2) on the pipeline values
+    let mut pipeline_vals: Vec<BigI> = vec![];
+    for ch in xs.chunks(n) {
+        if let Some((cs, raw)) = chk_m_tilde(cx, rep, &tl, ch, xcls) {
+            if let Some((v, _)) = chk_sm_mrq(cx, rep, &tl, &cs, Some(&raw), "output_of_fastbconv_m_tilde") { if pipeline_vals.len() < 2 * n { pipeline_vals.extend(v); } }
+        }
+    }
+    // (2) free-standing inputs: ties r = 2^31, multiples of m_tilde, [0,kQ), the whole range of Bsk x m_tilde
+    {
+        let full = tl.big_bsk.shl(32);
+        let kq = tl.big_q.mul_u64(k as u64);
+        let mut cs: Vec<BigU> = vec![BigU::zero(), one.clone(), bu(1 << 31), bu(MT), bu(MT - 1), full.sub(&one), tl.big_q.clone(), kq.sub(&one)];
+        for _ in 0..4 { cs.push(rand_below_big(rng, &tl.big_q).shl(32).add_u64(1 << 31)); }
+        for _ in 0..4 { cs.push(rand_below_big(rng, &tl.big_q).shl(32)); }
+        for _ in 0..nv / 4 { cs.push(rand_below_big(rng, &kq)); }
+        for _ in 0..nv / 4 { cs.push(rand_below_big(rng, &full)); }
+        pad_u(rng, &mut cs, n, &full);
+        for ch in cs.chunks(n) { chk_sm_mrq(cx, rep, &tl, ch, None, "free"); }
+    }
+    // (3) fast_floor
+    {
+        let full = tl.big_q.mul(&tl.big_bsk);
+        let mut zs: Vec<BigI> = vec![bi(0), bi(1), bi(-1), to_i(&tl.big_q), to_i(&tl.big_q.sub(&one)), to_i(&tl.big_q.add(&one)), to_i(&tl.big_q).neg(), to_i(&tl.big_q.add(&one)).neg(), to_i(&full.sub(&one))];
+        for _ in 0..6 { let m = rand_below_big(rng, &tl.big_bsk); let z = m.mul(&tl.big_q); zs.push(to_i(&z)); if !z.is_zero() { zs.push(to_i(&z.sub(&one))); } }
+        // magnitudes of the multiplication pipeline: t * x1 * x2 with centred x
+        for _ in 0..nv / 4 {
+            let a = center(&rand_below_big(rng, &tl.big_q), &tl.big_q); let b = center(&rand_below_big(rng, &tl.big_q), &tl.big_q);
+            zs.push(a.mul(&b).mul_u64(t.max(1)));
+        }
+        for _ in 0..nv / 4 { let z = rand_below_big(rng, &full); zs.push(if rng.bool() { to_i(&z) } else { center(&z, &full) }); }
+        pad_i(rng, &mut zs, n, &full);
+        for ch in zs.chunks(n) { chk_fast_floor(cx, rep, &tl, ch, None, "free"); }
+    }
+    // (4) fastbconv_sk
+    {
+        let h = (tl.msk - 1) / 2;
+        let big_b = &tl.big_b;
+        let mk = |lambda: &BigI, rho: &BigU| lambda.mul(&to_i(big_b)).add(&to_i(rho));
+        let lo = bi(tl.kb as i64 - 1).sub(&to_i(&bu(h))); let hi = to_i(&bu(h));
+        let mut ws: Vec<BigI> = vec![bi(0), bi(1), bi(-1), to_i(&big_b.sub(&one)), to_i(big_b), to_i(big_b).neg(), to_i(&big_b.shr(1)), to_i(&big_b.shr(1)).neg()];
+        for lam in [hi.clone(), hi.sub(&bi(1)), lo.clone(), lo.add(&bi(1)), hi.add(&bi(1)), lo.sub(&bi(1)), lo.sub(&bi(tl.kb as i64)), bi(0), bi(-1)] {
+            for rho in [BigU::zero(), big_b.sub(&one), rand_below_big(rng, big_b), rand_below_big(rng, big_b)] { ws.push(mk(&lam, &rho)); }
+        }
+        // results of the multiplication pipeline: about t*Q/4 in size
+        for _ in 0..nv / 4 {
+            let a = center(&rand_below_big(rng, &tl.big_q), &tl.big_q); let b = center(&rand_below_big(rng, &tl.big_q), &tl.big_q);
+            ws.push(a.mul(&b).mul_u64(t.max(1)).divmod_floor(&tl.big_q).0);
+        }
+        for _ in 0..nv / 4 {
+            let lam = to_i(&bu(rng.below(h + 1))); let lam = if rng.bool() { lam } else { lam.neg().add(&bi(tl.kb as i64)) };
+            ws.push(mk(&lam, &rand_below_big(rng, big_b)));
+        }
+        while ws.len() % n != 0 { ws.push(to_i(&rand_below_big(rng, big_b))); }
+        for ch in ws.chunks(n) { chk_sk(cx, rep, &tl, ch, None, "free"); }
+    }
+    // (5) composition
+    if t != 0 {
+        let mut a: Vec<BigI> = xs.iter().map(|x| center(x, &tl.big_q)).collect();
+        let mut b = a.clone(); rng.shuffle(&mut b);
+        // extremes against extremes
+        let h = to_i(&tl.big_q.shr(1));
+        for (u, v) in [(h.clone(), h.clone()), (h.neg(), h.clone()), (h.neg(), h.neg()), (h.clone(), h.neg()), (bi(0), h.clone()), (h.neg(), bi(1))] { a.push(u); b.push(v); }
+        let cap = (nv * 2).max(n);
+        if a.len() > cap { a.truncate(cap / n * n); b.truncate(cap / n * n); }
+        while a.len() % n != 0 { a.push(center(&rand_below_big(rng, &tl.big_q), &tl.big_q)); b.push(center(&rand_below_big(rng, &tl.big_q), &tl.big_q)); }
+        for (ca, cb) in a.chunks(n).zip(b.chunks(n)) { chk_composed(cx, rep, &tl, ca, cb, xcls); }
+    }
+    // (6), (7)
+    if k >= 2 {
+        let qk = tl.qs[k - 1];
+        let mut ys = xs.clone();
+        // rounding boundaries m*q_k + floor(q_k/2) + {-1,0,1}
+        let cof = tl.big_q.div(&bu(qk));
+        for _ in 0..4 { let m = rand_below_big(rng, &cof); for d in 0..3u64 { let v = m.mul_u64(qk).add_u64((qk >> 1) + d); if v.cmp_u(&bu(0)) != Ordering::Less && v.cmp_u(&tl.big_q) == Ordering::Less && !(v.is_zero()) { ys.push(v.sub(&one)); } } }
+        pad_u(rng, &mut ys, n, &tl.big_q);
+        let crt1 = Crt::new(&tl.qs[..k - 1]).expect("coprime");
+        for ch in ys.chunks(n) { chk_div_round(cx, rep, &tl, ch, xcls); chk_mod_t_div(cx, rep, &tl, &crt1, ch, xcls); }
+    }
+    // (8), (9)
+    if t != 0 {
+        let v = xs_scale_round(rng, &tl, &xs, xs.len());
+        for ch in v.chunks(n) { chk_scale_round(cx, rep, &tl, ch, "rounding_boundaries+generic"); }
+        let mut v = xs.clone();
+        let h = tl.big_q.shr(1);
+        let margin = tl.big_q.shr(40).add_u64(1);
+        for d in [margin.clone(), margin.add_u64(1), margin.shr(1), BigU::zero(), one.clone()] {
+            if h.cmp_u(&d) == Ordering::Greater { v.push(h.sub(&d)); v.push(h.add_u64(1).add(&d)); }
+        }
+        pad_u(rng, &mut v, n, &tl.big_q);
+        for ch in v.chunks(n) { chk_decrypt_mod_t(cx, rep, &tl, ch, "centring_boundaries+generic"); }
+    }
+    rep.distinct_key(&format!("B-N{}-k{}-{:?}-t{}-{}-{}", n, k, tl.qs.iter().map(|&m| refm::bit_len(m)).collect::<Vec<_>>(), refm::bit_len(t), order, ntt_class));
+    let _ = (&pipeline_vals, tl.logn);
+}
+
+// ------------------------------------------------------------------ entry
+pub fn run(cfg: &Cfg, rep: &mut Report) -> PropMeta {
+    let fam = exhaustive_family();
+    run_cases(cfg, "A_exhaustive", fam.len() as u64, rep, |i, _rng, rep| {
+        let (qs, order) = &fam[i as usize];
+        a_exhaustive_case(&Cx { cfg, grp: "A_exhaustive", case: i }, rep, qs, order);
+    });
+    let n_a = cfg.n(6_000, 100_000) as u64;
+    run_cases(cfg, "A_sampled", n_a, rep, |i, rng, rep| a_big_case(&Cx { cfg, grp: "A_sampled", case: i }, rng, rep));
+    let n_b = cfg.n(5_000, 60_000) as u64;
+    run_cases(cfg, "B_tool", n_b, rep, |i, rng, rep| b_case(&Cx { cfg, grp: "B_tool", case: i }, rng, rep));
+    rep.note("BaseConverter is a private type: fast_convert_array is exercised through fastbconv_m_tilde/fast_floor/fastbconv_sk/decrypt_scale_and_round and exact_convey_array through decrypt_mod_t, not called directly");
+    rep.note("A_exhaustive enumerates completely: every pairwise-coprime subset of {2,3,4,5,7,9,11,13} with product <= 2^16 in ascending, descending and a mixed order x every integer below the product x every residue vector");
+    PropMeta {
+        id: "C10", level: "exploration",
+        rule: "A_exhaustive: all pairwise-coprime subsets of {2,3,4,5,7,9,11,13} with product <= 2^16 (3 orders) x all integers below the product and all residue vectors (complete). A_sampled: random bases of 1..8 moduli of 2..61 bits (primes, composites, 2^b, 2^b-1; asc/desc/mixed) x {0,1,Q-1,floor/ceil(Q/2), m*q_i and +-1, 2^64j and +-1, random, random residue vectors}; all values when Q < 2^12. B_tool: RNSTool::new(N=2..64, q of 1..8 moduli of <=60 bits (NTT primes or odd coprime), t = 0 or 2..60 bits coprime to q and < Q) x every routine on integers chosen first (all x < Q when Q < 2^12, else boundary + random, routine-specific boundary values). evaluations = integer inputs whose output was asserted; distinct = distinct bases (moduli bit sizes, order, N, t size)",
+        assumptions: vec![
+            "harness BigU/BigI (cross-checked against Python integers by `hv selftest`) and rustc u128 arithmetic".into(),
+            "refm::ntt_ref/intt_ref (the documented evaluation map) with the root stored in the library's NTTTables, verified to be a primitive 2N-th root".into(),
+            "fastbconv_sk is asserted for floor(w/prod(B)) in [|B|-1-(m_sk-1)/2, (m_sk-1)/2]; decrypt_scale_and_round for floor(gamma*(t*x-R*Q)/Q) >= k-1-(gamma-1)/2 (noise below Q/(2t)*(1-2k/gamma)); decrypt_mod_t for centred |x| <= Q/2*(1-2^-39); mod_t_and_divide for 2*t*q_k < Q; inputs outside are executed and counted as out_of_precondition".into(),
+            "sm_mrq: at the tie -c''/Q = 2^31 (mod 2^32) both signs of the Montgomery correction are accepted".into(),
+            "RNSTool base q: odd pairwise-coprime moduli <= 60 bits (NTT-form routines only with primes = 1 mod 2N), as a context supplies them".into(),
+        ],
+        exhaustive: false, floor: 20_000,
+    }
+}
